@@ -11,7 +11,7 @@ ID = "C13"
 LEVEL = "fault_enumeration"
 BUDGET = {"quick": 400, "thorough": 6400}
 WALL_CAP = {"quick": 400, "thorough": 3300}
-TOOLS = ["colander", "combine", "chef", "mandoline", "whip", "marinate",
+TOOLS = ["colander", "combine", "chef", "mandoline", "whip", "marinate", "chk2plt",
          "taste", "menu", "minuterie", "pestle"]
 RULE = ("case = tool in {colander, combine, chef(user recipe), mandoline(array/plotfile), whip, marinate, chk2plt, "
         "taste, menu, minuterie, pestle} x invocation form (API/CLI, explicit rel/abs or default output, input given "
